@@ -75,8 +75,12 @@ func randF64(r *rand.Rand) float64 {
 	}
 }
 
-var blobLens = []int{0, 1, 2, 252, 253, 254, 255, 256, 257}
-var bigLens = []int{65534, 65535, 65536, 65537, 70000}
+// Lengths.  A length travels in a count cell of 1, 2 or 4 bytes; a cell has boundaries at the
+// carry into each of its bytes (255/256, 65535/65536), at its sign bit (127/128, 32767/32768), at its
+// maximum (253 for the one-byte blob form, 65535 for 16 bits) and at the widths of the fixed cells
+// (a result as short as a scalar: 1..9 bytes).  Both sides of every boundary are driven.
+var blobLens = []int{0, 1, 2, 3, 4, 5, 7, 8, 9, 126, 127, 128, 129, 252, 253, 254, 255, 256, 257}
+var bigLens = []int{32766, 32767, 32768, 32769, 65534, 65535, 65536, 65537, 70000}
 
 func randLen(r *rand.Rand, allowBig bool, max int) int {
 	n := 0
@@ -85,10 +89,16 @@ func randLen(r *rand.Rand, allowBig bool, max int) int {
 		n = blobLens[r.Intn(len(blobLens))]
 	case 2:
 		if allowBig {
-			n = bigLens[r.Intn(len(bigLens))]
+			if r.Intn(3) == 0 { // anywhere in the range of the 16-bit cell and a little beyond (log-uniform)
+				n = 258 + int(r.Int63n(int64(1)<<uint(8+r.Intn(9))))
+			} else {
+				n = bigLens[r.Intn(len(bigLens))]
+			}
 		} else {
 			n = r.Intn(40)
 		}
+	case 3:
+		n = r.Intn(12) // as short as a scalar
 	default:
 		n = r.Intn(40)
 	}
@@ -113,23 +123,24 @@ func randBytes(r *rand.Rand, n int) []byte {
 func randText(r *rand.Rand, n int) string {
 	const alpha = "abcXYZ019 _-=/\t한é"
 	rs := []rune(alpha)
-	out := make([]rune, 0, n)
-	for len(string(out)) < n {
-		out = append(out, rs[r.Intn(len(rs))])
+	out := make([]byte, 0, n+4)
+	for len(out) < n {
+		out = append(out, string(rs[r.Intn(len(rs))])...)
 	}
-	s := string(out)
-	if len(s) > n {
-		s = s[:n] // may cut a rune: arbitrary bytes are legal text on the wire
-	}
-	return s
+	return string(out[:n]) // may cut a rune: arbitrary bytes are legal text on the wire
 }
 
 type item struct {
-	op   string
-	v    interface{} // projected value as logged
-	wr   func(o *gio.DataOutputX)
-	rd   func(in *gio.DataInputX) interface{}
-	desc string
+	op string
+	v  interface{} // projected value as logged
+	wr func(o *gio.DataOutputX)
+	rd func(in *gio.DataInputX) interface{}
+	// kinds whose read hands back a reference (slice, string, array): the caller keeps it.
+	again  func() interface{} // the kept result projected NOW (nil: the result is a plain Go value)
+	scrib  func()             // the caller overwrites the kept result it owns (and the spare capacity behind it)
+	wscrib func()             // the caller overwrites the argument it handed to the write, after the call returned
+	n      int                // payload bytes / elements (volume control)
+	desc   string
 }
 
 func w8s(vs []int64) []core.Bytes {
@@ -141,8 +152,22 @@ func w8s(vs []int64) []core.Bytes {
 }
 
 var opNames = []string{"Bool", "Byte", "Short", "UShort", "UShortB", "Int3", "Int", "UInt", "Long5", "Long",
-	"Float", "Double", "Decimal", "Blob", "Text", "ShortBytes", "IntBytes", "TextShort",
+	"Float", "Double", "Decimal", "Blob", "Text", "ShortBytes", "IntBytes", "TextShort", "Raw",
 	"ShortArr", "IntArr", "LongArr", "FloatArr", "DoubleArr", "TextArr"}
+
+// kinds with a length / count cell
+var byteOps = []string{"Blob", "Text", "ShortBytes", "TextShort", "IntBytes", "Raw"}
+var arrayOps = []string{"ShortArr", "IntArr", "LongArr", "FloatArr", "DoubleArr", "TextArr"}
+
+func maxLenOf(op string) int {
+	switch op {
+	case "ShortBytes", "TextShort":
+		return 65535
+	}
+	return 1 << 20
+}
+
+var arrBoundary = []int{126, 127, 128, 129, 254, 255, 256, 257}
 
 func arrLen(r *rand.Rand, big bool) int {
 	switch r.Intn(8) {
@@ -155,13 +180,67 @@ func arrLen(r *rand.Rand, big bool) int {
 			return []int{32767, 32766, 256, 255}[r.Intn(4)]
 		}
 		return 2
+	case 3:
+		if r.Intn(2) == 0 {
+			return arrBoundary[r.Intn(len(arrBoundary))]
+		}
+		return r.Intn(6)
 	default:
 		return r.Intn(6)
 	}
 }
 
-func genItem(r *rand.Rand, op string, big bool) item {
+// scribBytes: what a caller may do with a byte slice it owns -- overwrite it, and use the capacity behind it
+func scribBytes(b []byte) {
+	for i := range b {
+		b[i] ^= 0xa5
+	}
+	x := b[:cap(b)]
+	for i := len(b); i < len(x) && i < len(b)+64; i++ {
+		x[i] ^= 0x5a
+	}
+}
+
+// genItem draws one write/read pair of kind op.  n < 0: the length / count is drawn too.
+func genItem(r *rand.Rand, op string, big bool) item { return genItemN(r, op, big, -1, false) }
+
+func genItemN(r *rand.Rand, op string, big bool, n int, forceNil bool) item {
 	it := item{op: op}
+	bytesArg := func(max int) []byte { // the byte string handed to a write: nil and empty are both "no bytes"
+		if n < 0 {
+			n = randLen(r, big, max)
+		}
+		it.n = n
+		if n == 0 && (forceNil || r.Intn(2) == 0) {
+			return nil
+		}
+		return randBytes(r, n)
+	}
+	textArg := func(max int) string {
+		if n < 0 {
+			n = randLen(r, big, max)
+		}
+		it.n = n
+		return randText(r, n)
+	}
+	count := func(big bool) int {
+		if n < 0 {
+			n = arrLen(r, big)
+		}
+		it.n = n
+		return n
+	}
+	keepBytes := func(read func(in *gio.DataInputX) []byte) {
+		var got []byte
+		it.rd = func(in *gio.DataInputX) interface{} { got = read(in); return core.Cp(got) }
+		it.again = func() interface{} { return core.Cp(got) }
+		it.scrib = func() { scribBytes(got) }
+	}
+	keepText := func(read func(in *gio.DataInputX) string) {
+		var got string
+		it.rd = func(in *gio.DataInputX) interface{} { got = read(in); return core.Str(got) }
+		it.again = func() interface{} { return core.Str(got) } // a string is immutable only if it does not share memory
+	}
 	switch op {
 	case "Bool":
 		b := r.Intn(2) == 1
@@ -229,46 +308,58 @@ func genItem(r *rand.Rand, op string, big bool) item {
 		it.wr = func(o *gio.DataOutputX) { o.WriteDouble(v) }
 		it.rd = func(in *gio.DataInputX) interface{} { return core.F64(in.ReadDouble()) }
 	case "Blob":
-		n := randLen(r, big, 1<<20)
-		var b []byte
-		if n > 0 || r.Intn(2) == 0 {
-			b = randBytes(r, n) // n == 0: empty non-nil slice; else nil
-		}
+		b := bytesArg(1 << 20)
 		it.v = core.Cp(b)
 		it.wr = func(o *gio.DataOutputX) { o.WriteBlob(b) }
-		it.rd = func(in *gio.DataInputX) interface{} { return core.Cp(in.ReadBlob()) }
+		it.wscrib = func() { scribBytes(b) }
+		keepBytes(func(in *gio.DataInputX) []byte { return in.ReadBlob() })
 	case "Text":
-		s := randText(r, randLen(r, big, 1<<20))
+		s := textArg(1 << 20)
 		it.v = core.Str(s)
 		it.wr = func(o *gio.DataOutputX) { o.WriteText(s) }
-		it.rd = func(in *gio.DataInputX) interface{} { return core.Str(in.ReadText()) }
+		keepText(func(in *gio.DataInputX) string { return in.ReadText() })
 	case "ShortBytes":
-		n := randLen(r, big, 65535)
-		var b []byte
-		if n > 0 || r.Intn(2) == 0 {
-			b = randBytes(r, n)
-		}
+		b := bytesArg(65535)
 		it.v = core.Cp(b)
 		it.wr = func(o *gio.DataOutputX) { o.WriteShortBytes(b) }
-		it.rd = func(in *gio.DataInputX) interface{} { return core.Cp(in.ReadShortBytes()) }
+		it.wscrib = func() { scribBytes(b) }
+		keepBytes(func(in *gio.DataInputX) []byte { return in.ReadShortBytes() })
 	case "IntBytes":
-		n := randLen(r, big, 1<<20)
-		var b []byte
-		if n > 0 || r.Intn(2) == 0 {
-			b = randBytes(r, n)
-		}
+		b := bytesArg(1 << 20)
 		it.v = core.Cp(b)
 		it.wr = func(o *gio.DataOutputX) { o.WriteIntBytes(b) }
-		it.rd = func(in *gio.DataInputX) interface{} { return core.Cp(in.ReadIntBytes()) }
+		it.wscrib = func() { scribBytes(b) }
+		if r.Intn(3) == 0 { // the bounded reader, with a bound the value respects
+			max := len(b) + r.Intn(3)
+			keepBytes(func(in *gio.DataInputX) []byte { return in.ReadIntBytesLimit(max) })
+		} else {
+			keepBytes(func(in *gio.DataInputX) []byte { return in.ReadIntBytes() })
+		}
 	case "TextShort":
-		s := randText(r, randLen(r, big, 65535))
+		s := textArg(65535)
 		it.v = core.Str(s)
 		it.wr = func(o *gio.DataOutputX) { o.WriteTextShortLength(s) }
-		it.rd = func(in *gio.DataInputX) interface{} { return core.Str(in.ReadTextShortLength()) }
+		keepText(func(in *gio.DataInputX) string { return in.ReadTextShortLength() })
+	case "Raw": // WriteBytes(b) / Write(b, off, n): no prefix; the matching read is ReadBytes(n)
+		b := bytesArg(1 << 20)
+		it.v = core.Cp(b)
+		ln := int32(len(b))
+		if r.Intn(2) == 0 {
+			it.wr = func(o *gio.DataOutputX) { o.WriteBytes(b) }
+			it.wscrib = func() { scribBytes(b) }
+		} else { // a window of a larger array
+			off := r.Intn(5)
+			frame := make([]byte, off+len(b)+r.Intn(5))
+			r.Read(frame)
+			copy(frame[off:], b)
+			it.wr = func(o *gio.DataOutputX) { o.Write(frame, off, len(b)) }
+			it.wscrib = func() { scribBytes(frame) }
+		}
+		keepBytes(func(in *gio.DataInputX) []byte { return in.ReadBytes(ln) })
 	case "ShortArr":
-		n := arrLen(r, big)
+		n := count(big)
 		var a []int16
-		if n > 0 || r.Intn(2) == 0 {
+		if n > 0 || !(forceNil || r.Intn(2) == 0) {
 			a = make([]int16, n)
 		}
 		vs := make([]int64, n)
@@ -278,18 +369,30 @@ func genItem(r *rand.Rand, op string, big bool) item {
 		}
 		it.v = w8s(vs)
 		it.wr = func(o *gio.DataOutputX) { o.WriteShortArray(a) }
-		it.rd = func(in *gio.DataInputX) interface{} {
-			x := in.ReadShortArray()
-			o := make([]int64, len(x))
-			for i := range x {
-				o[i] = int64(x[i])
+		it.wscrib = func() {
+			for i := range a {
+				a[i] = ^a[i]
+			}
+		}
+		var got []int16
+		proj := func() interface{} {
+			o := make([]int64, len(got))
+			for i := range got {
+				o[i] = int64(got[i])
 			}
 			return w8s(o)
 		}
+		it.rd = func(in *gio.DataInputX) interface{} { got = in.ReadShortArray(); return proj() }
+		it.again = proj
+		it.scrib = func() {
+			for i := range got {
+				got[i] = ^got[i]
+			}
+		}
 	case "IntArr":
-		n := arrLen(r, big)
+		n := count(big)
 		var a []int32
-		if n > 0 || r.Intn(2) == 0 {
+		if n > 0 || !(forceNil || r.Intn(2) == 0) {
 			a = make([]int32, n)
 		}
 		vs := make([]int64, n)
@@ -299,18 +402,30 @@ func genItem(r *rand.Rand, op string, big bool) item {
 		}
 		it.v = w8s(vs)
 		it.wr = func(o *gio.DataOutputX) { o.WriteIntArray(a) }
-		it.rd = func(in *gio.DataInputX) interface{} {
-			x := in.ReadIntArray()
-			o := make([]int64, len(x))
-			for i := range x {
-				o[i] = int64(x[i])
+		it.wscrib = func() {
+			for i := range a {
+				a[i] = ^a[i]
+			}
+		}
+		var got []int32
+		proj := func() interface{} {
+			o := make([]int64, len(got))
+			for i := range got {
+				o[i] = int64(got[i])
 			}
 			return w8s(o)
 		}
+		it.rd = func(in *gio.DataInputX) interface{} { got = in.ReadIntArray(); return proj() }
+		it.again = proj
+		it.scrib = func() {
+			for i := range got {
+				got[i] = ^got[i]
+			}
+		}
 	case "LongArr":
-		n := arrLen(r, big)
+		n := count(big)
 		var a []int64
-		if n > 0 || r.Intn(2) == 0 {
+		if n > 0 || !(forceNil || r.Intn(2) == 0) {
 			a = make([]int64, n)
 		}
 		for i := range a {
@@ -318,11 +433,23 @@ func genItem(r *rand.Rand, op string, big bool) item {
 		}
 		it.v = w8s(a)
 		it.wr = func(o *gio.DataOutputX) { o.WriteLongArray(a) }
-		it.rd = func(in *gio.DataInputX) interface{} { return w8s(in.ReadLongArray()) }
+		it.wscrib = func() {
+			for i := range a {
+				a[i] = ^a[i]
+			}
+		}
+		var got []int64
+		it.rd = func(in *gio.DataInputX) interface{} { got = in.ReadLongArray(); return w8s(got) }
+		it.again = func() interface{} { return w8s(got) }
+		it.scrib = func() {
+			for i := range got {
+				got[i] = ^got[i]
+			}
+		}
 	case "FloatArr":
-		n := arrLen(r, big)
+		n := count(big)
 		var a []float32
-		if n > 0 || r.Intn(2) == 0 {
+		if n > 0 || !(forceNil || r.Intn(2) == 0) {
 			a = make([]float32, n)
 		}
 		vs := make([]core.Bytes, n)
@@ -332,18 +459,30 @@ func genItem(r *rand.Rand, op string, big bool) item {
 		}
 		it.v = vs
 		it.wr = func(o *gio.DataOutputX) { o.WriteFloatArray(a) }
-		it.rd = func(in *gio.DataInputX) interface{} {
-			x := in.ReadFloatArray()
-			o := make([]core.Bytes, len(x))
-			for i := range x {
-				o[i] = core.F32(x[i])
+		it.wscrib = func() {
+			for i := range a {
+				a[i] = 1.5
+			}
+		}
+		var got []float32
+		proj := func() interface{} {
+			o := make([]core.Bytes, len(got))
+			for i := range got {
+				o[i] = core.F32(got[i])
 			}
 			return o
 		}
+		it.rd = func(in *gio.DataInputX) interface{} { got = in.ReadFloatArray(); return proj() }
+		it.again = proj
+		it.scrib = func() {
+			for i := range got {
+				got[i] = 2.5
+			}
+		}
 	case "DoubleArr":
-		n := arrLen(r, big)
+		n := count(big)
 		var a []float64
-		if n > 0 || r.Intn(2) == 0 {
+		if n > 0 || !(forceNil || r.Intn(2) == 0) {
 			a = make([]float64, n)
 		}
 		vs := make([]core.Bytes, n)
@@ -353,29 +492,46 @@ func genItem(r *rand.Rand, op string, big bool) item {
 		}
 		it.v = vs
 		it.wr = func(o *gio.DataOutputX) { o.WriteDoubleArray(a) }
-		it.rd = func(in *gio.DataInputX) interface{} {
-			x := in.ReadDoubleArray()
-			o := make([]core.Bytes, len(x))
-			for i := range x {
-				o[i] = core.F64(x[i])
+		it.wscrib = func() {
+			for i := range a {
+				a[i] = 1.5
+			}
+		}
+		var got []float64
+		proj := func() interface{} {
+			o := make([]core.Bytes, len(got))
+			for i := range got {
+				o[i] = core.F64(got[i])
 			}
 			return o
 		}
+		it.rd = func(in *gio.DataInputX) interface{} { got = in.ReadDoubleArray(); return proj() }
+		it.again = proj
+		it.scrib = func() {
+			for i := range got {
+				got[i] = 2.5
+			}
+		}
 	case "TextArr":
-		n := arrLen(r, false)
 		// sparse arrays: (mostly) empty strings, i.e. the minimal one byte per element -- an array whose
 		// encoding is as short as its count allows, which is what a count-vs-remaining guard must still accept
 		sparse := r.Intn(3) == 0
-		if sparse && r.Intn(2) == 0 {
-			n = 1 + r.Intn(40)
+		if n < 0 {
+			n = arrLen(r, false)
+			if sparse && r.Intn(2) == 0 {
+				n = 1 + r.Intn(40)
+			}
+		} else if n > 300 {
+			sparse = true
 		}
+		it.n = n
 		var a []string
-		if n > 0 || r.Intn(2) == 0 {
+		if n > 0 || !(forceNil || r.Intn(2) == 0) {
 			a = make([]string, n)
 		}
 		vs := make([]core.Bytes, n)
 		for i := range a {
-			if sparse && r.Intn(5) != 0 {
+			if sparse && (r.Intn(5) != 0 || n > 300 && r.Intn(50) != 0) {
 				vs[i] = core.Str("")
 				continue
 			}
@@ -384,13 +540,25 @@ func genItem(r *rand.Rand, op string, big bool) item {
 		}
 		it.v = vs
 		it.wr = func(o *gio.DataOutputX) { o.WriteTextArray(a) }
-		it.rd = func(in *gio.DataInputX) interface{} {
-			x := in.ReadTextArray()
-			o := make([]core.Bytes, len(x))
-			for i := range x {
-				o[i] = core.Str(x[i])
+		it.wscrib = func() {
+			for i := range a {
+				a[i] = "~"
+			}
+		}
+		var got []string
+		proj := func() interface{} {
+			o := make([]core.Bytes, len(got))
+			for i := range got {
+				o[i] = core.Str(got[i])
 			}
 			return o
+		}
+		it.rd = func(in *gio.DataInputX) interface{} { got = in.ReadTextArray(); return proj() }
+		it.again = proj
+		it.scrib = func() {
+			for i := range got {
+				got[i] = "~"
+			}
 		}
 	default:
 		panic("op " + op)
@@ -398,42 +566,172 @@ func genItem(r *rand.Rand, op string, big bool) item {
 	return it
 }
 
+// how a program is run: which observations the caller makes and what else it does with the two streams
+type mode struct {
+	quiet bool   // the output is not looked at between the writes (no ToByteArray()/Size() until the end)
+	alias bool   // the reader is opened over the slice ToByteArray() returned, not over a copy of it
+	scrib bool   // the caller overwrites some arguments after the write returned and some results it was handed
+	late  []item // write calls on the output after the reader was opened, between the reads
+}
+
+func (m mode) String() string {
+	s := ""
+	if m.quiet {
+		s += "q"
+	}
+	if m.alias {
+		s += "a"
+	}
+	if m.scrib {
+		s += "s"
+	}
+	if len(m.late) > 0 {
+		s += fmt.Sprintf("l%d", len(m.late))
+	}
+	return s
+}
+
+const againMax = 4096 // results longer than this are looked at again only at the end of small programs
+
 // stream runs one write-then-read program on the real codec.
 func stream(c *core.Ctx, t *core.Trace, gen string, cas int, items []item) {
-	t.Reset(gen, cas, nil)
+	streamM(c, t, gen, cas, items, mode{}, nil)
+}
+
+// streamM: r drives the caller's choices of mode m (nil: none).
+func streamM(c *core.Ctx, t *core.Trace, gen string, cas int, items []item, m mode, r *rand.Rand) {
+	coin := func(k int) bool { return r != nil && r.Intn(k) == 0 }
+	var extra core.Ev
+	if m.String() != "" {
+		extra = core.Ev{"mode": m.String()}
+	}
+	t.Reset(gen, cas, extra)
 	out := gio.NewDataOutputX()
 	prev := 0
 	key := ""
 	for _, it := range items {
 		msg := core.Guard(func() { it.wr(out) })
-		all := out.ToByteArray()
-		ev := core.Ev{"ev": "W", "op": it.op, "v": it.v, "out": core.Cp(all[prev:]), "size": out.Size()}
+		if m.scrib && it.wscrib != nil && coin(2) {
+			it.wscrib() // the argument belongs to the caller again
+		}
+		ev := core.Ev{"ev": "W", "op": it.op, "v": it.v}
+		if !m.quiet {
+			all := out.ToByteArray()
+			ev["out"], ev["size"] = core.Cp(all[prev:]), out.Size()
+			key += fmt.Sprintf("%s:%d;", it.op, len(all)-prev)
+			prev = len(all)
+		} else {
+			key += fmt.Sprintf("%s:q%d;", it.op, it.n)
+		}
 		if msg != "" {
 			ev["ev"] = "Panic"
 			ev["msg"] = msg
 		}
 		t.Emit(ev)
-		key += fmt.Sprintf("%s:%d;", it.op, len(all)-prev)
-		prev = len(all)
 	}
-	t.Emit(core.Ev{"ev": "Open"})
-	in := gio.NewDataInputX(core.Cp(out.ToByteArray()))
-	for _, it := range items {
+	whole := out.ToByteArray()
+	open := core.Ev{"ev": "Open"}
+	if m.quiet || len(whole) <= againMax {
+		open["bytes"], open["size"] = core.Cp(whole), out.Size()
+	}
+	t.Emit(open)
+	var in *gio.DataInputX
+	if m.alias {
+		in = gio.NewDataInputX(whole)
+	} else {
+		in = gio.NewDataInputX(core.Cp(whole))
+	}
+	prev = len(whole)
+	kept := make([]bool, len(items)) // results the caller still holds unchanged
+	again := func(j int) {
+		t.Emit(core.Ev{"ev": "Again", "i": j + 1, "kept": items[j].again()})
+	}
+	lastKept := -1
+	late := m.late
+	doLate := func() {
+		it := late[0]
+		late = late[1:]
+		msg := core.Guard(func() { it.wr(out) })
+		all := out.ToByteArray()
+		ev := core.Ev{"ev": "WLate", "op": it.op, "v": it.v, "out": core.Cp(all[prev:]), "size": out.Size()}
+		if msg != "" {
+			ev["ev"], ev["msg"] = "Panic", msg
+		}
+		prev = len(all)
+		t.Emit(ev)
+		if lastKept >= 0 && kept[lastKept] {
+			again(lastKept)
+		}
+	}
+	ok := true
+	for k, it := range items {
+		if len(late) > 0 && coin(len(items)) {
+			doLate()
+		}
 		var ret interface{}
 		msg := core.Guard(func() { ret = it.rd(in) })
 		if msg != "" {
 			t.Emit(core.Ev{"ev": "Panic", "op": it.op, "msg": msg})
+			ok = false
 			break
 		}
 		t.Emit(core.Ev{"ev": "R", "ret": ret, "avail": int(in.Available())})
+		// what the previous read handed back, now that another read has happened on the stream
+		if lastKept >= 0 && kept[lastKept] {
+			again(lastKept)
+		}
+		if it.again != nil {
+			if m.scrib && it.scrib != nil && coin(3) {
+				it.scrib() // the caller does what it likes with its result; later reads must not notice
+			} else if it.n <= againMax || len(items) <= 3 {
+				kept[k] = true
+				lastKept = k
+			}
+		}
 	}
-	t.Emit(core.Ev{"ev": "End"})
-	c.Count(key, len(items) > 0)
+	for ok && len(late) > 0 {
+		doLate()
+	}
+	if ok { // everything the caller still holds, after all reads and writes
+		for j := range items {
+			if kept[j] && !(j == lastKept && j == len(items)-1 && len(m.late) == 0) {
+				again(j)
+			}
+		}
+	}
+	end := core.Ev{"ev": "End"}
+	if fin := out.ToByteArray(); len(fin) <= againMax || m.quiet {
+		end["obytes"], end["osize"] = core.Cp(fin), out.Size()
+	} else {
+		end["osize"] = out.Size()
+	}
+	t.Emit(end)
+	c.Count(key+m.String(), len(items) > 0)
+}
+
+// drawMode: the caller's behaviour around a program
+func drawMode(r *rand.Rand) mode {
+	var m mode
+	switch r.Intn(4) {
+	case 0:
+		m.quiet = true
+	case 1:
+		m.alias = true
+		for k := 1 + r.Intn(3); k > 0; k-- {
+			m.late = append(m.late, genItem(r, opNames[r.Intn(len(opNames))], false))
+		}
+	case 2:
+		m.scrib = true
+		m.alias = r.Intn(2) == 0
+	}
+	return m
 }
 
 func Run(c *core.Ctx) error {
-	c.Rule = "random programs of 1..12 mixed write calls (24 op kinds, boundary-biased values) written with the real DataOutputX and read back with the matching DataInputX calls; a case is non-trivial if it has at least one write; distinct by (op, encoded length) sequence"
+	c.Rule = "random programs of 1..12 mixed write calls (25 op kinds, boundary-biased values and lengths) written with the real DataOutputX and read back with the matching DataInputX calls, every result that is a reference looked at again after later calls; a case is non-trivial if it has at least one write; distinct by (op, encoded length) sequence and caller mode"
 	t := c.Trace("c01_stream", "Trace_DataX")
+	tp := c.Trace("c01_prog", "Trace_DataX")
+	tl := c.Trace("c01_lens", "Trace_DataX")
 
 	// gen "each": one single-op program per op kind and boundary value class
 	if c.WantGen("each") {
@@ -450,7 +748,7 @@ func Run(c *core.Ctx) error {
 			}
 		}
 	}
-	// gen "prog": mixed programs
+	// gen "prog": mixed programs, the caller behaving in one of several ways around them
 	if c.WantGen("prog") {
 		n := c.Pick(300, 5000)
 		for cas := 0; cas < n; cas++ {
@@ -468,7 +766,7 @@ func Run(c *core.Ctx) error {
 				}
 				items[i] = genItem(r, opNames[r.Intn(len(opNames))], big)
 			}
-			stream(c, t, "prog", cas, items)
+			streamM(c, tp, "prog", cas, items, drawMode(r), r)
 			if cas < 2 {
 				var ops []string
 				for _, it := range items {
@@ -478,6 +776,10 @@ func Run(c *core.Ctx) error {
 			}
 		}
 	}
+	// gens "lens" / "counts": every kind with a length or count cell at both sides of every boundary of the cell
+	runLens(c, tl)
+	// gen "static": the static helpers, their results kept
+	runStatic(c, t)
 	// gen "le": little-endian helpers on boundary and random byte strings
 	if c.WantGen("le") {
 		n := c.Pick(400, 20000)
